@@ -492,6 +492,13 @@ fn fam_adversarial(o: &mut Out, quick: bool, _rng: &mut Rng) {
             }
         }
     }
+    for c in singular_cases() {
+        o.run(c.clone());
+        let mut c2 = c.clone();
+        c2.max_steps = Some(200_000);
+        c2.tags.push("finite_budget".into());
+        o.run(c2);
+    }
     // the same pathologies on the negative axis (guards that compare with |x|), in both directions, and a non-finite
     // region that begins shortly before xend (the step that runs into it is the one cut to land on xend)
     for m in METHODS {
@@ -545,6 +552,26 @@ fn fam_adversarial(o: &mut Out, quick: bool, _rng: &mut Rng) {
     }
 }
 
+/// Radau / BDF runs whose iteration matrix is exactly singular at the first step size and again after each of the next
+/// three halvings (C04: the retry with the halved step ends; C11: singular passes count against the budget)
+fn singular_cases() -> Vec<Case> {
+    let mut v = Vec::new();
+    for (m, coef) in [("RADAU", 3.637_834_252_744_496_f64), ("BDF", 1.185_f64)] {
+        for (x0, xend, h0) in [(0.0, 1.0, 0.5), (0.0, 1.0, 0.25), (1.0, 0.0, 0.5)] {
+            let lam = coef / h0 * if xend > x0 { 1.0 } else { -1.0 };
+            let mut c = base(m, Problem::new("grow4", lam), x0, xend);
+            c.rtol = vec![1e-4];
+            c.atol = vec![1e-8];
+            c.jac = "user".into();
+            c.first_step = Some(h0);
+            c.budget = Some(300_000);
+            c.tags = vec!["singular_iteration_matrix".into()];
+            v.push(c);
+        }
+    }
+    v
+}
+
 // ---------------------------------------------------------------------------------------- lowlevel
 /// C19 / C06 (per-step interpolant facts) / C18: low-level solvers with a recording, scripted SolOut.
 fn fam_lowlevel(o: &mut Out, quick: bool, rng: &mut Rng) {
@@ -596,6 +623,7 @@ fn fam_lowlevel(o: &mut Out, quick: bool, rng: &mut Rng) {
                 let pl = o.run(c.clone());
                 let mut cx = c.clone();
                 cx.script = (0..6).map(|k| Script { k: 2 * k, action: "xout".into() }).collect();
+                cx.probe_restart = true;       // whatever interpolant a step hands out is the step's own
                 cx.tags = vec![if nodense { "xout_nodense".into() } else { "xout_dense".into() }];
                 let xr = o.run(cx);
                 o.pair("C19", "equal_cb", &pl, &xr, "returning XOut instead of Continue does not change the integration");
@@ -689,6 +717,17 @@ fn fam_lowlevel(o: &mut Out, quick: bool, rng: &mut Rng) {
                     c.probe_restart = true;
                     if *m == "RK4" { c.first_step = Some((xend - x0) / 23.0); }
                     c.tags = vec!["restart_probe".into()];
+                    o.run(c);
+                }
+                // max_step in force, and a last step stretched by half a percent of max_step to land on xend
+                if *m != "RK4" {
+                    let mut c = base(m, Problem::new("sho", 0.0), *x0, *xend);
+                    c.api = "low".into();
+                    c.rtol = vec![1e-4];
+                    c.atol = vec![1e-7];
+                    c.max_step = Some((xend - x0).abs() / 10.005);
+                    c.probe_restart = true;
+                    c.tags = vec!["restart_probe+max_step_remainder".into()];
                     o.run(c);
                 }
                 // a long run: more than 1000 accepted steps (periodic housekeeping of the steppers is reached)
@@ -825,6 +864,27 @@ fn fam_observer(o: &mut Out, quick: bool, rng: &mut Rng) {
         v.tags = vec!["repeat".into()];
         let b = o.run(v);
         o.pair("C12", "equal", &a, &b, "repeating the call gives bit-identical results");
+    }
+}
+
+/// C12: a long, stability-limited explicit run that the stiffness detection cuts short stops at the same place whatever is
+/// reported
+fn fam_observer_stiff(o: &mut Out) {
+    for m in ["DOP853", "DOPRI5"] {
+        let mut c = base(m, Problem::new("relax", 2.0e4), 0.0, 1.5);
+        c.y0 = vec![0.0];
+        c.rtol = vec![1e-6];
+        c.atol = vec![1e-8];
+        c.tags = vec!["plain+stiff_long".into()];
+        let a = o.run(c.clone());
+        for (tag, te, dense) in [("teval", Some(linspace(0.0, 1.5, 7)), false), ("dense", None, true), ("teval+dense", Some(linspace(0.0, 1.5, 16)), true)] {
+            let mut v = c.clone();
+            v.t_eval = te;
+            v.dense = dense;
+            v.tags = vec![format!("stiff_long+{}", tag)];
+            let b = o.run(v);
+            o.pair("C12", "observer", &a, &b, "output options on a run that stiffness detection ends");
+        }
     }
 }
 
@@ -972,6 +1032,21 @@ fn fam_budget_early_rejections(o: &mut Out, quick: bool) {
                 let b = o.run(v);
                 o.pair("C11", "budget_prefix", &a, &b, "budgeted run is a prefix of the unbudgeted run");
             }
+        }
+    }
+}
+
+/// C11: factorisations that fail (exactly singular iteration matrix) are passes of the loop like any other
+fn fam_budget_singular(o: &mut Out) {
+    for mut c in singular_cases() {
+        c.tags = vec!["singular_iteration_matrix+unbudgeted".into()];
+        let a = o.run(c.clone());
+        for k in 1..=8usize {
+            let mut v = c.clone();
+            v.max_steps = Some(k);
+            v.tags = vec!["singular_iteration_matrix+budget".into()];
+            let b = o.run(v);
+            o.pair("C11", "budget_prefix", &a, &b, "budgeted run is a prefix of the unbudgeted run");
         }
     }
 }
@@ -1264,20 +1339,22 @@ fn fam_symmetry(o: &mut Out, quick: bool, rng: &mut Rng) {
         }
         // (3) 2^k scaling of state and atol, linear homogeneous, explicit or user Jacobian
         if linear && (!implicit || c.jac == "user") {
-            let k = *rng.pick(&[-20, -7, -1, 1, 5, 20]);
-            let f = (2.0f64).powi(k);
-            let mut v = c.clone();
-            v.y0 = c.y0.iter().map(|y| y * f).collect();
-            v.atol = c.atol.iter().map(|t| t * f).collect();
-            v.events = vec![];
-            v.map = format!("scale:{}", k);
-            v.tags = vec![format!("scale2^{}", k)];
             let mut a0 = c.clone();
             a0.events = vec![];
             a0.tags = vec!["reference_noev".into()];
             let a0r = o.run(a0);
-            let b = o.run(v);
-            o.pair("C13", "equal", &a0r, &b, "2^k scaling of a linear homogeneous system");
+            // a moderate factor, and one that puts states and error weights far below / above machine epsilon
+            for k in [*rng.pick(&[-20, -7, -1, 1, 5, 20]), *rng.pick(&[-60, 60, -90])] {
+                let f = (2.0f64).powi(k);
+                let mut v = c.clone();
+                v.y0 = c.y0.iter().map(|y| y * f).collect();
+                v.atol = c.atol.iter().map(|t| t * f).collect();
+                v.events = vec![];
+                v.map = format!("scale:{}", k);
+                v.tags = vec![format!("scale2^{}", k)];
+                let b = o.run(v);
+                o.pair("C13", "equal", &a0r, &b, "2^k scaling of a linear homogeneous system");
+            }
         }
         // (4) duplication of a scalar problem into 2 / 4 identical copies
         if p.base_dim() == 1 && (!implicit || c.jac == "user") {
@@ -1644,6 +1721,33 @@ fn fam_events_small(o: &mut Out) {
     }
 }
 
+/// C08: a zero-length run has one (empty) event list per event function, whatever the dimension of the state
+fn fam_events_zero(o: &mut Out) {
+    for m in METHODS {
+        for (prob, nev) in [("lin2", 1usize), ("lin2", 3), ("decay", 2), ("lin3", 1)] {
+            let mut c = base(m, Problem::new(prob, 1.0), 2.0, 2.0);
+            c.events = (0..nev).map(|i| EventSpec { kind: "y0-a".into(), a: 0.25 * i as f64, dir: "All".into(), term: i % 2 }).collect();
+            c.tags = vec!["zero_interval+events".into()];
+            o.run(c);
+        }
+    }
+}
+
+/// C09: a sign change inside an accepted step that is shorter than the output handler's absolute time tolerance
+fn fam_events_tinysteps(o: &mut Out) {
+    for m in METHODS {
+        for (x0, dir) in [(0.0, 1.0), (1.0, -1.0)] {
+            let hs = 5.0e-13;
+            let mut c = base(m, Problem::new("decay", 1.0), x0, x0 + dir * 60.0 * hs);
+            if m == "RK4" { c.first_step = Some(hs); } else { c.max_step = Some(hs); }
+            c.events = vec![EventSpec { kind: "t-c".into(), a: x0 + dir * 30.4 * hs, dir: "All".into(), term: 0 },
+                            EventSpec { kind: "t-c".into(), a: x0 + dir * 41.7 * hs, dir: if dir > 0.0 { "Pos".into() } else { "Neg".into() }, term: 0 }];
+            c.tags = vec!["event_in_tiny_step".into()];
+            o.run(c);
+        }
+    }
+}
+
 /// C09: event values that decay to the subnormal range keep their strict sign: no crossing, no event
 fn fam_events_tiny(o: &mut Out) {
     for m in ["RK4", "RK23", "DOPRI5", "BDF"] {
@@ -1708,13 +1812,13 @@ fn main() {
             "core" => fam_core(&mut o, quick, &mut rng),
             "adversarial" => fam_adversarial(&mut o, quick, &mut rng),
             "lowlevel" => fam_lowlevel(&mut o, quick, &mut rng),
-            "observer" => { fam_observer(&mut o, quick, &mut rng); fam_observer_wide(&mut o, quick); fam_observer_firststep(&mut o); fam_observer_long(&mut o, quick); }
-            "budget" => { fam_budget(&mut o, quick, &mut rng); fam_budget_early_rejections(&mut o, quick); fam_budget_radau(&mut o, quick); }
+            "observer" => { fam_observer(&mut o, quick, &mut rng); fam_observer_wide(&mut o, quick); fam_observer_firststep(&mut o); fam_observer_long(&mut o, quick); fam_observer_stiff(&mut o); }
+            "budget" => { fam_budget(&mut o, quick, &mut rng); fam_budget_early_rejections(&mut o, quick); fam_budget_radau(&mut o, quick); fam_budget_singular(&mut o); }
             "terminal" => { fam_terminal(&mut o, quick, &mut rng); fam_terminal_last(&mut o, quick); fam_terminal_sweep(&mut o, quick); fam_terminal_budget(&mut o); }
             "symmetry" => fam_symmetry(&mut o, quick, &mut rng),
             "storage" => { fam_storage(&mut o, quick, &mut rng); fam_storage_mass(&mut o, quick); }
             "teval" => { fam_teval(&mut o, quick, &mut rng); fam_teval_zero(&mut o); fam_teval_landing(&mut o); }
-            "events" => { fam_events(&mut o, quick, &mut rng); fam_events_small(&mut o); fam_events_codes(&mut o); fam_events_tiny(&mut o); }
+            "events" => { fam_events(&mut o, quick, &mut rng); fam_events_small(&mut o); fam_events_codes(&mut o); fam_events_tiny(&mut o); fam_events_zero(&mut o); fam_events_tinysteps(&mut o); }
             _ => { eprintln!("unknown family {}", fam); std::process::exit(2); }
         }
     }
